@@ -324,6 +324,7 @@ func (f File) typeByteReaders(gs GenerateSettings) map[string]string {
 		sz := fixedSizeTypes[en.SimpleType]
 		out[en.Name] = "%ASGN = %TYPE(iohelp.Read" + fixedTitleString(en.SimpleType) + "Bytes(buf[at:]))\n" +
 			"at += " + strconv.Itoa(int(sz))
+		out[en.Name+hintSafeKey] = "if len(buf[at:]) < " + strconv.Itoa(int(sz)) + " {\n\treturn io.ErrUnexpectedEOF\n}\n" + out[en.Name]
 	}
 	stringRead := "ReadStringBytes(buf[at:])"
 	if gs.SharedMemoryStrings {
